@@ -100,6 +100,8 @@ def run(ctx):
     _graham(rc)
     res.assumptions += ["x-sorted input for the monotone chains", "real-number reading of the orientation polynomial"]
     res.not_decided += ["equality with the brute-force hull", "behaviour of the angular sort under ties beyond the comparator's definition"]
+    from .common import hidden_state as _hidden_state
+    _hidden_state(rc, "H6", ['convex_hull.graham_scan', 'convex_hull.graham_scan_lower', 'convex_hull.graham_scan_upper'], "the hull scans")
     res.require_instances("C18 obligations", len(res.obligations), 12)
 
 
@@ -220,6 +222,8 @@ def _chain(rc: RuleCtx, name: str, pop_signs):
         raise AnalysisError(f"{fi.qualname}: scan body not modelled: {e}")
     # popping loop only pops
     wenv = dict(benv)
+    from .common import carry
+    carry(ev, w, benv, wenv)
     try:
         wout = ev.eval_loop_body(fi, w, wenv)
     except Unsupported as e:
